@@ -36,6 +36,7 @@ def run(F, chk):
     Q3 = chk.rule('Q3', 'every path from an un-buffering (buffered_lcs.remove) to the next receive passes a drain decision (queue emptiness test or still-buffered test)')
     A1 = chk.rule('A1', 'every message passes Lifecycle::new/update before being sent or queued; both store `lifecycle` on every return path')
     E1 = chk.rule('E1', 'the stage (incl. closures, Lifecycle::new/update/merge) writes no DltMessage field other than `lifecycle`')
+    P3 = chk.rule('P3', 'after every merge the whole queue and the current message are relabelled (no message keeps the id of an invalidated lifecycle)')
     stages = lcstage.find_stage(F)
     L1.floor('lifecycle stage functions (anchor: evmap::WriteHandle + Receiver<DltMessage> params)', len(stages), 1)
     for b in stages:
@@ -49,6 +50,8 @@ def run(F, chk):
         check_drain(st, Q3)
         check_assigned(F, st, A1)
         effects.check_may_write(F, E1, b.path, {'lifecycle'}, what='the lifecycle stage')
+        import c07
+        c07.check_relabel(F, st, P3)
 
 
 def check_queue_api(body, Q1):
